@@ -55,6 +55,7 @@ type symbol struct {
 	rval    reflect.Value // default value (used for constants)
 	builtin bltnGenerator // Builtin function or nil
 	global  bool          // true if symbol is defined in global space
+	prev    *symbol       // previous definition of a global variable defined again, or nil
 }
 
 // scope type stores symbols in maps, and frame layout as array of types
